@@ -111,6 +111,9 @@ pub trait Flavour: Sized + 'static {
     fn key(n: &Self::Node) -> usize;
     fn prio(n: &Self::Node) -> u32;
     fn vid(n: &Self::Node) -> u64;
+    /// the (interior-mutable) value the node is ordered by, and its setter
+    fn eff(n: &Self::Node) -> i64;
+    fn set_eff(n: &Self::Node, v: i64);
     /// prio through Deref
     fn deref_prio(n: &Self::Node) -> u32;
     fn node_eq(a: &Self::Node, b: &Self::Node) -> bool;
@@ -360,6 +363,12 @@ macro_rules! common_node_items {
         }
         fn vid(n: &Self::Node) -> u64 {
             n.value().id
+        }
+        fn eff(n: &Self::Node) -> i64 {
+            n.value().eff()
+        }
+        fn set_eff(n: &Self::Node, v: i64) {
+            n.value().set_eff(v)
         }
         fn deref_prio(n: &Self::Node) -> u32 {
             use std::ops::Deref;
